@@ -101,7 +101,7 @@ def check_validate_funds(ctx, model):
         ctx.ob("C08-B1", "%s|atom|%s" % (VF, name), ok,
                "rejecting edge of '%s' (bb%d) %s reach the Ok return" % (name, b, "cannot" if ok else "CAN"), v.where(b))
     # whitelist closure compares the whitelisted denom with the declared denom
-    for q in [x for x in model.fnsrc if x.startswith(VF + "::{closure")]:
+    for q in model.closures_of(VF):
         cv = model.view(q)
         eqs = [t for b, t in cv.iter_calls() if re.search(r"<std::string::String as std::cmp::PartialEq>::(eq|ne)$", mname(t))]
         ctx.ob("C08-B1", "%s|whitelist-closure-compares-denoms" % VF, bool(eqs), "string comparisons in %s: %d" % (q, len(eqs)), cv.where())
@@ -387,7 +387,7 @@ def check_unbonding_cursor(ctx, model):
     if v is None:
         return
     names = [c for _, c, _ in model.callees(p)]
-    for q in [x for x in model.fnsrc if x.startswith(p + "::{closure")]:
+    for q in model.closures_of(p):
         names += [c for _, c, _ in model.callees(q)]
     excl = [c for c in names if re.search(r"Bound(<.*>)?::(ExclusiveRaw|exclusive)$", re.sub(r"::<[^>]*>", "", c))]
     incl = [c for c in names if re.search(r"Bound(<.*>)?::(InclusiveRaw|inclusive|Inclusive)$", re.sub(r"::<[^>]*>", "", c))]
@@ -403,7 +403,7 @@ def check_unbonding_cursor(ctx, model):
         helpers = [c for c in names if c in model.fnsrc and c != p and "calc_range" in c]
         okh = False
         for hname in helpers:
-            for q in [x for x in model.fnsrc if x.startswith(hname + "::{closure")]:
+            for q in model.closures_of(hname):
                 cv = model.view(q)
                 pushes = cv.calls_to(r"^std::vec::Vec::push$")
                 ks = [const_of(cv, t["args"][1], cv.at_term(b)) for b, t in pushes]
